@@ -134,6 +134,16 @@ open TD
 
 -- the spool and the cache inside `step` ------------------------------------------------------------
 
+theorem delIf_eq_applyOp {ν : Type} (T now : Nat) (c : TD Key ν) (k : Key) :
+    delIf c k = c.applyOp T now (.del k) := by
+  simp only [delIf, applyOp]
+  cases c.del k <;> rfl
+
+theorem untouches_delIf {ν : Type} {T now : Nat} {k k' : Key} (td : TD Key ν) (hne : k' ≠ k) :
+    Untouches T now k td (delIf td k') := by
+  rw [delIf_eq_applyOp T now]
+  exact untouches_applyOp _ _ hne
+
 theorem feed_untouches {T now : Nat} {sp : TD Key Msg} {req : Msg} {k : Key}
     (hne : blockKey req ≠ k) : Untouches T now k sp (feedAndTake T now sp req).1 := by
   cases hb : req.block1 with
@@ -144,28 +154,27 @@ theorem feed_untouches {T now : Nat} {sp : TD Key Msg} {req : Msg} {k : Key}
     · rw [e]
       split
       · exact untouches_set _ _ hne
-      · exact (untouches_set _ _ hne).trans (untouches_accessed _ hne)
+      · exact ((untouches_set _ _ hne).trans (untouches_accessed _ hne)).trans (untouches_delIf _ hne)
     · rw [e]; exact Untouches.refl _ _ _ _
     · rw [e]; exact untouches_accessed _ hne
     · rw [e]
       split
       · exact (untouches_accessed _ hne).trans (untouches_mutate _ _ hne)
-      · exact ((untouches_accessed _ hne).trans (untouches_mutate _ _ hne)).trans
-          (untouches_accessed _ hne)
+      · exact (((untouches_accessed _ hne).trans (untouches_mutate _ _ hne)).trans
+          (untouches_accessed _ hne)).trans (untouches_delIf _ hne)
 
-theorem delIf_eq_applyOp (T now : Nat) (c : TD Key Resp) (k : Key) :
-    delIf c k = c.applyOp T now (.del k) := by
-  simp only [delIf, applyOp]
-  cases c.del k <;> rfl
-
-theorem extract_untouches {T now : Nat} {c : TD Key Resp} {m : Msg} {render : Msg → Resp} {k : Key}
+theorem extract_untouches {T now : Nat} {c : TD Key Resp} {m : Msg} {render : Msg → Outcome} {k : Key}
     (hne : blockKey m ≠ k) : Untouches T now k c (extractOrInsert T now c m render).1 := by
   by_cases hf : isFresh m = true
-  · rw [extract_fresh hf]
-    split
-    · exact untouches_set _ _ hne
-    · simp only [delIf_eq_applyOp T now]
-      exact untouches_applyOp _ _ hne
+  · cases hr : render m with
+    | ok a =>
+      rw [extract_fresh hf hr]
+      split
+      · exact untouches_set _ _ hne
+      · exact untouches_delIf _ hne
+    | error code =>
+      rw [extract_fresh_raised hf hr]
+      exact untouches_delIf _ hne
   · have hf' : isFresh m = false := by simpa using hf
     obtain ⟨b, hb, hb0⟩ := later_of_not_fresh hf'
     cases hl : alookup (blockKey m) c.items with
@@ -180,21 +189,6 @@ theorem pass_key {T now : Nat} {hist : List Msg} {sp : TD Key Msg} {req m : Msg}
   rcases (feed_spoolInv (T := T) (now := now) req h).2 m hp with ⟨_, e⟩ | ⟨e, _⟩
   · rw [e]
   · exact e
-
-theorem step_spool_eq (T : Nat) (st : RState) (i : In) :
-    (step T st i).1.spool =
-      if i.assemble then (feedAndTake T i.now (spoolAt T st i) i.req).1 else spoolAt T st i := by
-  by_cases ha : i.assemble = true
-  · simp only [ha, ↓reduceIte]
-    cases hfe : (feedAndTake T i.now (spoolAt T st i) i.req).2 with
-    | cont b => rw [step_cont ha hfe]
-    | incomplete => rw [step_incomplete ha hfe]
-    | badRequest => rw [step_badRequest ha hfe]
-    | keyError => exact absurd hfe (feed_ne_keyError _ _ _ _)
-    | pass m => rw [step_pass ⟨ha, hfe⟩]
-  · have ha' : i.assemble = false := by simpa using ha
-    simp only [ha', Bool.false_eq_true, ↓reduceIte]
-    rw [step_no_assembly ha']
 
 theorem step_spool_untouches {T : Nat} {st : RState} {i : In} {k : Key}
     (hne : i.assemble = true → blockKey i.req ≠ k) :
@@ -357,27 +351,20 @@ theorem stateAfter_append (T : Nat) (st : RState) (a b : List In) :
 
 -- the entry of a block key right after it was used ----------------------------------------------
 
-/-- what `feed_and_take` leaves under the block key of an accepted block -/
+/-- what `feed_and_take` leaves under the block key of an accepted intermediate block -/
 theorem accepted_spool {T : Nat} {st : RState} {cur : In} {b : Blk}
-    (hb : cur.req.block1 = some b) (hacc : Accepted T st cur b) :
+    (hb : cur.req.block1 = some b) (hm : b.more = true) (hacc : Accepted T st cur b) :
     ∃ asm prev, (b.num = 0 ∧ prev = [] ∨
                  b.num ≠ 0 ∧ ∃ old, alookup (blockKey cur.req) (spoolAt T st cur).items = some old ∧
                    prev = old.payload) ∧
       asm.payload = prev ++ cur.req.payload ∧
-      ((feedAndTake T cur.now (spoolAt T st cur) cur.req).1 =
+      (feedAndTake T cur.now (spoolAt T st cur) cur.req).1 =
           (if b.num = 0 then (spoolAt T st cur).set T cur.now (blockKey cur.req) asm
-           else ((spoolAt T st cur).accessed T cur.now (blockKey cur.req)).mutate (blockKey cur.req) asm) ∨
-       (feedAndTake T cur.now (spoolAt T st cur) cur.req).1 =
-          (if b.num = 0 then (spoolAt T st cur).set T cur.now (blockKey cur.req) asm
-           else ((spoolAt T st cur).accessed T cur.now (blockKey cur.req)).mutate (blockKey cur.req) asm).accessed
-            T cur.now (blockKey cur.req)) := by
+           else ((spoolAt T st cur).accessed T cur.now (blockKey cur.req)).mutate (blockKey cur.req) asm) := by
   by_cases h0 : b.num = 0
   · refine ⟨cur.req, [], Or.inl ⟨h0, rfl⟩, rfl, ?_⟩
     rw [feed_first hb h0]
-    simp only [h0, ↓reduceIte]
-    by_cases hm : b.more = true
-    · left; simp [hm]
-    · right; simp [hm]
+    simp [h0, hm]
   · rcases hacc with h | ⟨old, hl, hc, hs, hst⟩
     · exact absurd h h0
     · obtain ⟨self', hok⟩ : ∃ s, appendRequestBlock old cur.req b = .ok s :=
@@ -387,54 +374,74 @@ theorem accepted_spool {T : Nat} {st : RState} {cur : In} {b : Blk}
         rw [e]
       refine ⟨self', old.payload, Or.inr ⟨h0, old, hl, rfl⟩, hp, ?_⟩
       rw [feed_append_ok hb h0 hl hok]
-      simp only [h0, ↓reduceIte]
-      by_cases hm : b.more = true
-      · left; simp [hm]
-      · right; simp [hm]
+      simp [h0, hm]
 
 theorem accepted_linv {T t0 : Nat} (hT : 0 < T) {st : RState} (h : RInv T t0 st) (cur : In)
     (hle : t0 ≤ cur.now) (ha : cur.assemble = true) {b : Blk} (hb : cur.req.block1 = some b)
-    (hacc : Accepted T st cur b) :
+    (hm : b.more = true) (hacc : Accepted T st cur b) :
     ∃ D asm, cur.now + T ≤ D ∧ D ≤ cur.now + 2 * T ∧
       LInv T (step T st cur).1.spool cur.now (blockKey cur.req) D ∧
       alookup (blockKey cur.req) (step T st cur).1.spool.items = some asm := by
   have hset : Settled T cur.now (spoolAt T st cur) := settled_advance h.swf h.sb hle
-  obtain ⟨asm, prev, _, _, hform⟩ := accepted_spool hb hacc
+  obtain ⟨asm, prev, _, _, hform⟩ := accepted_spool hb hm hacc
   rw [step_spool_eq]
   simp only [ha, ↓reduceIte]
-  -- the entry after the first access
-  have base : ∃ D, Settled T cur.now
-        (if b.num = 0 then (spoolAt T st cur).set T cur.now (blockKey cur.req) asm
-         else ((spoolAt T st cur).accessed T cur.now (blockKey cur.req)).mutate (blockKey cur.req) asm) ∧
-      (if b.num = 0 then (spoolAt T st cur).set T cur.now (blockKey cur.req) asm
-         else ((spoolAt T st cur).accessed T cur.now (blockKey cur.req)).mutate (blockKey cur.req) asm).deathTime
-          T (blockKey cur.req) = some D ∧ cur.now + T ≤ D ∧ D ≤ cur.now + 2 * T ∧
-      alookup (blockKey cur.req)
-        (if b.num = 0 then (spoolAt T st cur).set T cur.now (blockKey cur.req) asm
-         else ((spoolAt T st cur).accessed T cur.now (blockKey cur.req)).mutate (blockKey cur.req) asm).items
-        = some asm := by
-    by_cases h0 : b.num = 0
-    · simp only [h0, ↓reduceIte]
-      obtain ⟨D, hD, h1, h2⟩ := deathTime_set hset (blockKey cur.req) asm
-      exact ⟨D, settled_set hset _ _, hD, h1, h2, by simp [TD.set, accessed_items, alookup_ainsert_self]⟩
-    · simp only [h0, ↓reduceIte]
-      rcases hacc with e | ⟨old, hl, _, _, _⟩
-      · exact absurd e h0
-      · obtain ⟨D, hD, h1, h2⟩ := deathTime_accessed hset hl
-        have hl' : alookup (blockKey cur.req)
-            ((spoolAt T st cur).accessed T cur.now (blockKey cur.req)).items = some old := by
-          rw [accessed_items]; exact hl
-        refine ⟨D, settled_mutate (settled_accessed hset _) _ _, ?_, h1, h2, ?_⟩
-        · rw [deathTime_mutate_self hl']; exact hD
-        · simp [TD.mutate, hl', alookup_ainsert_self]
-  obtain ⟨D, hs1, hD, h1, h2, hl1⟩ := base
-  rcases hform with e | e
-  · rw [e]
-    exact ⟨D, asm, h1, h2, linv_of_deathTime hs1 hD (by omega), hl1⟩
-  · rw [e]
-    obtain ⟨D', hD', h1', h2'⟩ := deathTime_accessed hs1 hl1
-    exact ⟨D', asm, h1', h2', linv_of_deathTime (settled_accessed hs1 _) hD' (by omega),
-      by rw [accessed_items]; exact hl1⟩
+  rw [hform]
+  by_cases h0 : b.num = 0
+  · simp only [h0, ↓reduceIte]
+    obtain ⟨D, hD, h1, h2⟩ := deathTime_set hset (blockKey cur.req) asm
+    exact ⟨D, asm, h1, h2, linv_of_deathTime (settled_set hset _ _) hD (by omega),
+      by simp [TD.set, accessed_items, alookup_ainsert_self]⟩
+  · simp only [h0, ↓reduceIte]
+    rcases hacc with e | ⟨old, hl, _, _, _⟩
+    · exact absurd e h0
+    · obtain ⟨D, hD, h1, h2⟩ := deathTime_accessed hset hl
+      have hl' : alookup (blockKey cur.req)
+          ((spoolAt T st cur).accessed T cur.now (blockKey cur.req)).items = some old := by
+        rw [accessed_items]; exact hl
+      refine ⟨D, asm, h1, h2,
+        linv_of_deathTime (settled_mutate (settled_accessed hset _) _ _) ?_ (by omega), ?_⟩
+      · rw [deathTime_mutate_self hl']; exact hD
+      · simp [TD.mutate, hl', alookup_ainsert_self]
+
+/-- a block key under which nothing is stored stays empty while only other block keys are used -/
+theorem spool_absent_aux {T : Nat} {k : Key} (rest : List In) :
+    ∀ {st : RState} {now : Nat}, RInv T now st → alookup k st.spool.items = none →
+      TimeOrdered now rest → (∀ i ∈ rest, i.assemble = true → blockKey i.req ≠ k) → ∀ t',
+      alookup k ((stateAfter T st rest).spool.advance T t').items = none := by
+  induction rest with
+  | nil => intro st now _ h _ _ t'; exact advance_absent h t'
+  | cons i rest ih =>
+    intro st now h habs ho hne t'
+    have us := step_spool_untouches (T := T) (st := st) (i := i) (hne i List.mem_cons_self)
+    have h1 : alookup k (step T st i).1.spool.items = none := by
+      rw [(us.2.2 (advance_wf h.swf _)).1]
+      exact advance_absent habs _
+    exact ih (step_rinv h i ho.1) h1 ho.2 (fun x hx => hne x (List.mem_cons_of_mem _ hx)) t'
+
+/-- … and likewise for the rendering cache -/
+theorem cache_absent_aux {T : Nat} {k : Key} (rest : List In) :
+    ∀ {st : RState} {now : Nat}, RInv T now st → alookup k st.cache.items = none →
+      TimeOrdered now rest → (∀ i ∈ rest, i.assemble = true → blockKey i.req ≠ k) → ∀ t',
+      alookup k ((stateAfter T st rest).cache.advance T t').items = none := by
+  induction rest with
+  | nil => intro st now _ h _ _ t'; exact advance_absent h t'
+  | cons i rest ih =>
+    intro st now h habs ho hne t'
+    obtain ⟨h0, hs⟩ := h.hist
+    have uc := step_cache_untouches (T := T) (st := st) (i := i) hs (hne i List.mem_cons_self)
+    have h1 : alookup k (step T st i).1.cache.items = none := by
+      rw [(uc.2.2 (advance_wf h.cwf _)).1]
+      exact advance_absent habs _
+    exact ih (step_rinv h i ho.1) h1 ho.2 (fun x hx => hne x (List.mem_cons_of_mem _ hx)) t'
+
+/-- an accepted final block leaves nothing under its block key -/
+theorem passes_block1_absent {T : Nat} {st : RState} {i : In} {m : Msg} {b : Blk}
+    (hp : Passes T st i m) (hb : i.req.block1 = some b) :
+    alookup (blockKey i.req) (step T st i).1.spool.items = none := by
+  rw [step_spool_eq]
+  simp only [hp.1, ↓reduceIte]
+  exact feed_pass_absent hb hp.2
 
 /-- the rendering a request was answered from in blocks is kept under its key, freshly used -/
 theorem served_linv {T t0 : Nat} (hT : 0 < T) {st : RState} (h : RInv T t0 st) (cur : In)
@@ -447,10 +454,9 @@ theorem served_linv {T t0 : Nat} (hT : 0 < T) {st : RState} (h : RInv T t0 st) (
   rw [step_pass hp]
   simp only
   rcases hsrc with ⟨hf, ha⟩ | ⟨hf, hl⟩
-  · subst ha
-    rw [extract_fresh hf]
+  · rw [extract_fresh hf ha]
     simp only [hchunk, ↓reduceIte]
-    obtain ⟨D, hD, h1, h2⟩ := deathTime_set hset (blockKey m) (cur.render m)
+    obtain ⟨D, hD, h1, h2⟩ := deathTime_set hset (blockKey m) a
     exact ⟨D, h1, h2, linv_of_deathTime (settled_set hset _ _) hD (by omega),
       by simp [TD.set, accessed_items, alookup_ainsert_self]⟩
   · obtain ⟨b, hb, h0⟩ := later_of_not_fresh hf
